@@ -112,7 +112,7 @@ def run(chk):
         chk.violation(r_pos, "index-type", "arrIndexRange is %s; lower_bound needs an ordered map keyed by report step" % (fld[0]["t"] if fld else None), er["file"], er["l"])
 
     # ---- C08.hdr
-    r_hdr = chk.rule("C08.hdr", "EclFile::seekPosition rewinds from the data position by exactly the header the writer emits (24 bytes unformatted, 30 characters formatted)", floor=2)
+    r_hdr = chk.rule("C08.hdr", "EclFile::seekPosition rewinds from the data position by exactly the header the writer emits (24 bytes unformatted, 30 characters + newline formatted)", floor=2)
     seq, nchar, wb, wf = C07.header_sums(fx)
     sp = fx.fn1("Opm::EclIO::EclFile::seekPosition")
     env = {v["n"]: strip(v.get("init")) for n in walk(sp["body"]) if n["k"] == "Decl" for v in n["vars"]}
@@ -122,10 +122,11 @@ def run(chk):
     cond, a, b = show(hs["c"][0]), strip(hs["c"][1]).get("v"), strip(hs["c"][2]).get("v")
     if cond != "this.formatted":
         raise core.AnalysisBroken("seekPosition: headerSize condition is %s" % cond)
-    chk.instance(r_hdr, "formatted", sample=dict(reader_subtracts=a, writer_emits=nchar))
+    nchar_line = nchar + 1      # the header line's terminating newline precedes the data position too (C07.header_sums checks there is exactly one)
+    chk.instance(r_hdr, "formatted", sample=dict(reader_subtracts=a, writer_emits="%d characters + newline" % nchar))
     chk.instance(r_hdr, "unformatted", sample=dict(reader_subtracts=b, writer_emits=sum(x or 0 for x in seq)))
-    if a != nchar:
-        chk.violation(r_hdr, "formatted", "seekPosition subtracts %s characters but writeFormattedHeader emits %s" % (a, nchar), sp["file"], sp["l"])
+    if a != nchar_line:
+        chk.violation(r_hdr, "formatted", "seekPosition subtracts %s bytes but writeFormattedHeader emits %s characters plus the newline = %s" % (a, nchar, nchar_line), sp["file"], sp["l"])
     if b != sum(x or 0 for x in seq):
         chk.violation(r_hdr, "unformatted", "seekPosition subtracts %s bytes but writeBinaryHeader emits %s = %s" % (b, "+".join(str(x) for x in seq), sum(x or 0 for x in seq)), sp["file"], sp["l"])
     seek = show(env.get("seekpos"))
@@ -133,6 +134,10 @@ def run(chk):
     chk.instance(r_hdr, "arith", sample=dict(datapos=dp, seekpos=seek))
     if dp != "this.ifStreamPos[arrIndex]" or seek != "((datapos <= headerSize) ? 0 : (datapos - headerSize))":
         chk.violation(r_hdr, "arith", "seekPosition computes %s from %s; expected datapos - headerSize (clamped at 0) from ifStreamPos[arrIndex]" % (seek, dp), sp["file"], sp["l"])
+
+    # ---- C08.tail: the reader's only protection against a cut-short unformatted record
+    r_tail = chk.rule("C08.tail", "readBinaryArray rejects a block whose element count is out of range, a short non-final block, and a tail marker that differs from the head (necessary for: a truncated file raises instead of returning data)", floor=1)
+    C07.check_reader_bracket(chk, fx, r_tail)
 
     # ---- C08.seq
     r_seq = chk.rule("C08.seq", "unified output starts every report step with a SEQNUM record carrying the step number", floor=1)
